@@ -28,7 +28,7 @@ func clRefCountWrites(c *Ctx) {
 			n, isConst := constInt(w.val)
 			switch {
 			case isConst && n == -1:
-				c.Check(w.fn == closeFn, w.fn, w.in, cnt.in(w.fn, "decrement of refCount"), "references are dropped only by Snapshot.Close (which also retires the snapshot at zero)")
+				c.Check(p.sameRoot(w.fn, closeFn), w.fn, w.in, cnt.in(w.fn, "decrement of refCount"), "references are dropped only by Snapshot.Close (which also retires the snapshot at zero)")
 			default:
 				c.Check(false, w.fn, w.in, cnt.in(w.fn, "blind increment of refCount"),
 					"the reference count is incremented unconditionally: an Open racing with the final Close revives a snapshot that was already retired (count leaves zero), and it is retired a second time")
@@ -132,7 +132,7 @@ func clIteratorRefPairing(c *Ctx) {
 	if c.Check(len(closes) == 1, itClose, nil, "Iterator.Close releases one snapshot reference", "an iterator must drop exactly the one reference it holds") {
 		cl := closes[0]
 		f, b := loadedField(callOf(cl).Args[0])
-		c.Check(f == fSnap && strip(b) == ssa.Value(itClose.Params[0]), itClose, cl, "the released snapshot is it.snap", "Iterator.Close releases some other snapshot")
+		c.Check(f == fSnap && strip(b) == strip(itClose.Params[0]), itClose, cl, "the released snapshot is it.snap", "Iterator.Close releases some other snapshot")
 		c.Check(cfi.PathAvoiding(nil, isReturn, func(x ssa.Instruction) bool { return x == cl }) == nil && !cfi.inLoop(cl), itClose, cl, "reference released on every path exactly once", "some path through Iterator.Close keeps (or double-drops) the snapshot reference")
 	}
 	// and leaves the barrier session of the underlying cursor
